@@ -38,7 +38,7 @@ TESTS = {
     ("qartod", "gross_range_test"): [{"fail_span": [0, 12], "suspect_span": [1, 11]}, {"fail_span": [-1.5, 30.25]}],
     ("qartod", "location_test"): [{"bbox": [-80, 40, -70, 60]}, {"bbox": [-80, 40, -70, 60], "range_max": 3000.5}],
     ("qartod", "spike_test"): [{"suspect_threshold": 0.5, "fail_threshold": 1}, {"suspect_threshold": 3, "fail_threshold": 8, "method": "differential"}],
-    ("qartod", "rate_of_change_test"): [{"threshold": 0.001}],
+    ("qartod", "rate_of_change_test"): [{"threshold": 0.001}, {"threshold": 1e-05}, {"threshold": 2.5e-07}],
     ("qartod", "flat_line_test"): [{"suspect_threshold": 3000, "fail_threshold": 6000, "tolerance": 0.01}],
     ("qartod", "attenuated_signal_test"): [{"suspect_threshold": 5, "fail_threshold": 2.5, "test_period": 3600, "min_obs": None, "check_type": "range"}],
     ("qartod", "density_inversion_test"): [{"suspect_threshold": 0.03, "fail_threshold": None}],
@@ -48,7 +48,9 @@ TESTS = {
     ("argo", "pressure_increasing_test"): [None],
     ("axds", "valid_range_test"): [{"valid_span": [0, 100]}, {"valid_span": [0, 100], "start_inclusive": False, "end_inclusive": True}],
 }
-UNKNOWN = [("nosuch", "foo_test", {"a": 1}), ("qartod", "definitely_not_a_test", {"b": [1, 2]}), ("argo", "spike_test", {"suspect_threshold": 1})]
+UNKNOWN = [("nosuch", "foo_test", {"a": 1}), ("qartod", "definitely_not_a_test", {"b": [1, 2]}), ("argo", "spike_test", {"suspect_threshold": 1}),
+           ("nope.sub", "foo_test", {"a": 1}), ("qartod.v2", "spike_test", {"suspect_threshold": 1}), ("math", "log", {"x": 1}),
+           ("os", "getcwd", None), ("numpy", "maximum", {"a": 1})]
 _LONG = [[-93.123456, 22.5], [-93.123456, 32.25], [-90.5, 33.0], [-88.25, 32.75], [-86.0, 32.5], [-84.0625, 32.0], [-84.0625, 22.5], [-86.5, 21.75], [-90.0, 21.5], [-93.123456, 22.5]]
 REGIONS = {
     # optional GeoJSON "id" members: equal ids, null ids, ids equal to list positions -- every feature still counts
@@ -69,6 +71,10 @@ REGIONS = {
     "long-c": {"type": "Feature", "geometry": {"type": "Polygon", "coordinates": [_LONG[:-3] + [[-90.0, 21.25], _LONG[0]]]}},
     "long-d": {"type": "Feature", "geometry": {"type": "Polygon", "coordinates": [[[p[0] + 0.0004, p[1]] for p in _LONG[:-1]] + [[_LONG[0][0] + 0.0004, _LONG[0][1]]]]}},
     "long-e": {"type": "Feature", "geometry": {"type": "Polygon", "coordinates": [_LONG]}},
+    "fine-decimals": {"type": "Feature", "geometry": {"type": "Polygon", "coordinates": [[[-93.1234567891, 22.0000004], [-93.1234567891, 32.9999996],
+                                                                                         [-84.000000123, 32.9999996], [-93.1234567891, 22.0000004]]]}},
+    "fine-features": {"type": "FeatureCollection", "features": [
+        {"type": "Feature", "geometry": {"type": "Point", "coordinates": [-72.123456789, 41.987654321]}}]},
     "geometry": {"type": "Feature", "geometry": {"type": "Polygon", "coordinates": [[[-93, 22], [-93, 32], [-84, 32], [-84, 22], [-93, 22]]]}},
     "features": {"type": "FeatureCollection", "features": [
         {"type": "Feature", "geometry": {"type": "Point", "coordinates": [-72.5, 41.25]}},
@@ -105,7 +111,8 @@ def gen_tree(rng):
                 c.pop("window", None)
             others = [r for r in sorted(REGIONS) if r != prev.get("region")]
             c["region"] = rng.choice([r for r in others if r.startswith("long")] or others)
-        for s in rng.sample(["temp", "salinity", "pressure", "v-1", "o2", "chl_a"], rng.choice([1, 1, 2, 3, 5])):
+        for s in rng.sample(["temp", "salinity", "pressure", "v-1", "o2", "chl_a", "on", "no", "yes", "010", "qartod", "argo", "utils",
+                             "1:30"], rng.choice([1, 1, 2, 3, 5])):
             keys = rng.sample(sorted(TESTS), rng.choice([1, 1, 2, 3, 5]))
             c["streams"][s] = [(m, t, rng.choice(TESTS[(m, t)])) for m, t in keys]
             if rng.random() < 0.3:
@@ -239,7 +246,7 @@ def hand_yaml(v, ind=0):
             return " {}\n"
         out = "\n" if ind else ""
         for k, x in v.items():
-            key = json.dumps(str(k)) if any(ch in str(k) for ch in ":#- ") else str(k)
+            key = json.dumps(str(k)) if (any(ch in str(k) for ch in ":#- ") or str(k)[:1].isdigit()) else str(k)
             if isinstance(x, dict) and x:
                 out += f"{sp}{key}:{hand_yaml(x, ind + 1)}"
             elif x is None:
